@@ -24,7 +24,7 @@ ASSUMPTIONS = ['base calls are only checked where every sensible likelihood agre
                'with identical quality multisets give N; one base dominating in count and in every quality gives that base',
                'the MD tag is parsed tolerantly (missing zero separators accepted): only its meaning is compared with the reference']
 MIN_NONTRIVIAL = {'quick': 150, 'thorough': 30000}
-REQUIRED_MONITORS = ['bases:unanimous_but_less_likely_than_no_call', 'ret:write_pysam_with_callback', 'history:grown_molecules', 'lib:reads_with_indel', 'ret:deduplicate_majority', 'reads:checked', 'reads:gapped', 'reads:reverse', 'bases:decidable_checked', 'bases:conflict_N_expected', 'bases:model_checked', 'bases:near_tie_checked', 'lib:near_tie_planted', 'lib:molecules_over_their_cap', 'lib:molecule_at_contig_start',
+REQUIRED_MONITORS = ['lib:base_qualities_above_60', 'bases:unanimous_but_less_likely_than_no_call', 'ret:write_pysam_with_callback', 'history:grown_molecules', 'lib:reads_with_indel', 'ret:deduplicate_majority', 'reads:checked', 'reads:gapped', 'reads:reverse', 'bases:decidable_checked', 'bases:conflict_N_expected', 'bases:model_checked', 'bases:near_tie_checked', 'lib:near_tie_planted', 'lib:molecules_over_their_cap', 'lib:molecule_at_contig_start',
                      'cli:consensus_reads_checked', 'split:max_N_span']
 SHARD_TIMEOUT = {'quick': 900, 'thorough': 5400}
 
@@ -295,6 +295,7 @@ def _ranges(s):
 
 
 LOWQ = [0]
+HIGHQ = [False]
 
 
 def run_case(case):
@@ -304,6 +305,8 @@ def run_case(case):
     from singlecellmultiomics.molecule import MoleculeIterator
     acc = Acc()
     r = rng(case['seed'], 'C15', case['i'])
+    HIGHQ[0] = case['i'] % 6 == 4
+    acc.count('lib:base_qualities_above_60', 1 if HIGHQ[0] else 0)
     method = r.choice(['nla', 'nla', 'chic'])
     contigs = [('chr1', 9000), ('chr2', 5000)][:r.randint(1, 2)]
     gen = F.Genome(r, contigs)
@@ -328,7 +331,10 @@ def run_case(case):
                 for _ in range(r.choice([1, 2, 3, 4, 4, 5, 6])):
                     rl = r.randint(30, 40)
                     qual = None
-                    if r.random() < 0.5:
+                    if HIGHQ[0]:
+                        # base qualities above 60 (long-read consensus, this tool's own consensus reads): 61 and 93 are different amounts of evidence
+                        qual = ([r.choice([61, 62, 70, 90, 93]) for _ in range(rl)], [r.choice([61, 62, 70, 90, 93]) for _ in range(rl)])
+                    elif r.random() < 0.5:
                         qual = ([r.choice([12, 20, 30, 37]) for _ in range(rl)], [r.choice([12, 20, 30, 37]) for _ in range(rl)])
                         if r.random() < 0.5:
                             # read tails of quality 0..3 (the sequencer's "no confidence" marks): a base that only such observations support is
